@@ -55,6 +55,7 @@ Definition step_spec (c : cfgT) (w : wobs) (v : sview) : bool :=
     if negb (plain_env (v_env v)) then true else
     let f := wo_fs w in let w' := v_after v in
     let m := layers_on_disk c f in
+    if negb (base_set_up c f && check_inheritance m) then unchanged w v else
     let tab := ks_tab (wo_ks w) in let tab' := ks_tab (wo_ks w') in
     let calls := syscalls (v_log v) in
     match n, all with
